@@ -96,7 +96,7 @@ def function_table(run):
     res = run.get('result')
     if not res:
         return tab
-    for mod in res['times-ms']['smt']['smt-run-module-times']:
+    for mod in res.get('times-ms', {}).get('smt', {}).get('smt-run-module-times', []):
         for f in mod['function-breakdown']:
             name = f['function']
             name = name.split('::', 1)[1] if '::' in name else name
